@@ -54,6 +54,8 @@ def c06(line, obs, sc, ln):
             continue
         if len(set(idxs)) != len(idxs):
             out.append(("duplicate", "an item appears twice in the snapshot: %s" % ob))
+        if o["mi"] != "ok":
+            out.append(("matched_items", "Snapshot::matched_items(range) does not hand out the items of matches()[range] (bounds, ExactSizeIterator::len or the reversed iterator): %s" % ob))
         if "NONE" in o["d"]:
             out.append(("unreadable", "matched items could not all be read (get_matched_item returned None): %s" % ob))
             continue
